@@ -337,12 +337,86 @@ def r10e(ctx):
                    f"XmlPart.clone: {why}; clone.root and clone.serialize() then disagree, or the clone lacks the edits")
 
 
+def r10g(ctx):
+    """What a clone is given is a copy.
+
+    The `clone` properties that rebuild an object attribute by attribute (`setattr(clone, name, V)`) and Element.clone (which hangs the copy
+    under a holder element) must hand the clone nothing that the original — or any other clone — still holds: V is a `.clone`, a
+    `deepcopy(...)`, a constant, a new display, or a local that is one of those on every path; the holder element of Element.clone is built
+    inside the call.  An alias on one branch (`setattr(clone, name, self.container)`) makes original and clone share mutable state; a
+    module-level holder makes all clones siblings in one tree, where absolute XPath reads of one clone see another.
+    """
+    from ..paths import reaching_defs
+    repo = ctx.repo
+    ctx.rule("R10g", "clone builders hand the clone only copies (setattr values, holder element of Element.clone)", floor=5)
+
+    def fresh(f, cfg, e, at, depth=0) -> bool:
+        if isinstance(e, ast.Constant):
+            return True
+        if isinstance(e, (ast.Dict, ast.List, ast.Set, ast.Tuple)):
+            return all(fresh(f, cfg, x, at, depth + 1) for x in (e.elts if not isinstance(e, ast.Dict) else list(e.keys) + list(e.values)) if x is not None)
+        if isinstance(e, ast.Attribute) and e.attr == "clone":
+            return True
+        if isinstance(e, ast.Call) and call_name(e) == "deepcopy":
+            return True
+        if isinstance(e, ast.Call) and call_name(e) in ("dict", "list", "set") and isinstance(e.func, ast.Name):
+            return True  # a new (shallow) collection: R10a decides whether shallow is enough for the class at hand
+        if isinstance(e, ast.Call) and isinstance(e.func, ast.Name) and e.func.id[:1].isupper():
+            return True  # a constructor call
+        if isinstance(e, ast.Call) and call_name(e) in ("lxml_Element", "Element", "SubElement", "__new__"):
+            return True
+        if isinstance(e, ast.Name) and depth < 4:
+            rd = reaching_defs(cfg, e.id).get(node_of(cfg, at).id, frozenset())
+            byid = {n.id: n for n in cfg.nodes}
+            if not rd or cfg.entry.id in rd:
+                return False
+            for d in rd:
+                st = byid[d].stmt
+                if not (isinstance(st, ast.Assign) and len(st.targets) == 1 and isinstance(st.targets[0], ast.Name)):
+                    return False
+                if not fresh(f, cfg, st.value, st, depth + 1):
+                    return False
+            return True
+        return False
+
+    n = 0
+    for f in repo.all_funcs():
+        if f.name != "clone" or f.kind == "setter":
+            continue
+        cfg = cfg_of(f)
+        sets = [c for c in walk_no_nested(f.node) if isinstance(c, ast.Call) and call_name(c) == "setattr" and len(c.args) == 3 and isinstance(c.args[0], ast.Name) and c.args[0].id != "self"]
+        for c in sets:
+            n += 1
+            ok = fresh(f, cfg, c.args[2], c)
+            ctx.instance("R10g", f"{f.file}:{f.ident}", f"{norm(c, 60)}: " + ("a copy" if ok else "NOT a copy on every path"), ok=ok, nontrivial=True, line=c.lineno)
+            if not ok:
+                ctx.report("R10g", f, c, norm(c, 70),
+                           f"{f.ident} gives the clone `{norm(c.args[2], 40)}`, which is not a copy: original and clone share that object, so a change made through one "
+                           f"shows in the other (for a part: set_part/del_part on the clone's container alter the original document)")
+    # Element.clone: the holder the copy is appended to is built in the call
+    e = repo.func("Element.clone", "getter")
+    cfg = cfg_of(e)
+    apps = [c for c in walk_no_nested(e.node) if isinstance(c, ast.Call) and call_name(c) == "append" and isinstance(c.func, ast.Attribute)]
+    for c in apps:
+        n += 1
+        recv = c.func.value
+        ok = isinstance(recv, ast.Name) and fresh(e, cfg, recv, c)
+        ctx.instance("R10g", f"{e.file}:{e.ident}", f"{norm(c, 50)}: holder " + ("built in this call" if ok else "is NOT local to this call"), ok=ok, nontrivial=True, line=c.lineno)
+        if not ok:
+            ctx.report("R10g", e, c, norm(c, 60),
+                       "Element.clone hangs every copy under one shared holder element: all clones of a process are siblings in one tree, so a property that reads with an "
+                       "absolute XPath (//dc:creator, //office:body/*[1] …) returns the node of an earlier clone, and its setter writes into that clone")
+    if n == 0:
+        raise AnalysisError("R10g: no clone builder found")
+
+
 def run(ctx):
     r10a(ctx)
     r10b(ctx)
     r10c(ctx)
     r10d(ctx)
     r10f(ctx)
+    r10g(ctx)
     r10e(ctx)
 
 
@@ -355,6 +429,17 @@ _DOC = "src/odfdo/document.py"
 _XP = "src/odfdo/xmlpart.py"
 _EL = "src/odfdo/element.py"
 SEEDS = [
+    Seed("XmlPart.clone shares the container once the part is parsed", "fault", "src/odfdo/xmlpart.py",
+         "                setattr(clone, name, self.container.clone)\n",
+         "                if self.__tree is None:\n                    setattr(clone, name, self.container.clone)\n                else:\n                    setattr(clone, name, self.container)\n", "R10g"),
+    Seed("XmlPart.clone copies the other attributes by reference", "fault", "src/odfdo/xmlpart.py",
+         "                value = getattr(self, name)\n                value = deepcopy(value)\n                setattr(clone, name, value)", "                value = getattr(self, name)\n                setattr(clone, name, value)", "R10g"),
+    Seed("Element.clone hangs the copy under a module-level holder", "fault", _EL,
+         '        root = lxml_Element("ROOT", nsmap=ODF_NAMESPACES)\n        root.append(clone)\n        return self.from_tag(clone)',
+         '        _xpath_text.holder = getattr(_xpath_text, "holder", None)\n        _CLONE_ROOT.append(clone)\n        return self.from_tag(clone)', "R10g",
+         edits=[(_EL, "_class_registry: dict[str, type[Element]] = {}\n", '_class_registry: dict[str, type[Element]] = {}\n_CLONE_ROOT = lxml_Element("ROOT", nsmap=ODF_NAMESPACES)\n')]),
+    Seed("XmlPart.clone copies in one expression", "neutral", "src/odfdo/xmlpart.py",
+         "                value = getattr(self, name)\n                value = deepcopy(value)\n                setattr(clone, name, value)", "                setattr(clone, name, deepcopy(getattr(self, name)))"),
     Seed("Row.clone shares the cell map", "fault", _R, "        clone._rmap = self._rmap[:]", "        clone._rmap = self._rmap", "R10a"),
     Seed("Row.clone forgets y", "fault", _R, "        clone.y = self.y\n        clone._rmap", "        clone._rmap", "R10a"),
     Seed("Cell.clone forgets x", "fault", "src/odfdo/cell.py", "        clone.y = self.y\n        clone.x = self.x\n", "        clone.y = self.y\n", "R10a"),
